@@ -202,6 +202,61 @@ def scale_el(e, k):
     return e * k
 
 
+def arrow_of(arr):
+    """the pyarrow array behind a public geometry array"""
+    d = getattr(arr, 'data', None)
+    if d is None:
+        d = arr.__arrow_array__()
+    return d
+
+
+def export_array(kind, arr, scale=1):
+    """buffers() of a public list-backed geometry array as the model's [listarr]; the number of
+    offset levels comes from the kind, the value dtype from the arrow type (no private attribute)"""
+    from . import geomgen as G
+    data = arrow_of(arr)
+    bufs = data.buffers()
+    off, n = data.offset, len(data)
+    nlev = G.LEVELS[kind]
+    if len(bufs) < 1 + 2 * nlev + 1:
+        raise ValueError('null-typed array: not modelled')
+    t = data.type
+    for _ in range(nlev):
+        t = t.value_type
+    dt = np.dtype(t.to_pandas_dtype())
+    valid = C._bits(bufs[0], off + n)
+    need, trimmed = off + n, []
+    for lev in range(nlev):
+        b = bufs[1 + 2 * lev]
+        ob = np.frombuffer(b, dtype=np.uint32) if b is not None else np.array([0], dtype=np.uint32)
+        o = [C.Nat(int(x)) for x in ob[:need + 1]]
+        trimmed.append(o)
+        need = int(o[-1]) if o else 0
+    vb = bufs[-1]
+    vals = np.frombuffer(vb, dtype=dt)[:need] if vb is not None else np.array([], dtype=dt)
+    isf = np.issubdtype(dt, np.floating)
+    vals = [C.num(float(v) * scale) if isf else C.Some(int(v) * scale) for v in vals]
+    return C.Rec('Build_listarr', C.Nat(off), C.Nat(n), None if valid is None else C.Some(valid),
+                 trimmed, vals)
+
+
+def export_points(arr, scale=1):
+    """buffers() of a public PointArray as the model's [fixarr]; coordinate dtype from the public
+    dtype name 'point[<subtype>]'"""
+    import re
+    data = arrow_of(arr)
+    bufs = data.buffers()
+    off, n = data.offset, len(data)
+    m = re.search(r'\[(\w+)\]', str(arr.dtype))
+    dt = np.dtype(m.group(1)) if m else np.dtype(arr.numpy_dtype)
+    valid = C._bits(bufs[0], off + n)
+    vals = np.frombuffer(bufs[1], dtype=dt) if bufs[1] is not None else np.array([], dtype=dt)
+    vals = vals[:2 * (off + n)]
+    isf = np.issubdtype(dt, np.floating)
+    vals = [C.num(float(v) * scale) if isf else C.Some(int(v) * scale) for v in vals]
+    return C.Rec('Build_fixarr', C.Nat(off), C.Nat(n), None if valid is None else C.Some(valid), vals)
+
+
 def export_scalar(el, scale=1):
     """(nbuf, listarr) of a GeometryList scalar's own listarray (one nesting level less
     than its array class; NullArray for an empty element); coordinates times `scale`"""
